@@ -191,7 +191,9 @@ def make_obj(kind, spec):
 
 
 def check_seq(order, first, stats, viol):
-    menus = [range(len(SEQ_OBJS))] * (len(order) - 1)
+    # sequences of 5 or 6 objects (thorough) use a 2-object menu for the tail to stay enumerable
+    tail = range(len(SEQ_OBJS)) if len(order) <= 4 else (2, 3)
+    menus = [tail] * (len(order) - 1)
     for rest in itertools.product(*menus):
         idx = (first,) + tuple(rest)
         objs = []
